@@ -240,6 +240,10 @@ func (nd *Node) build() error {
 	if err != nil {
 		return fmt.Errorf("container: %w", err)
 	}
+	// the host first installs a placeholder and then the real handler: the last one installed answers
+	if err = builtInFunctions.SetPayableHandler(cont, allPayable{}); err != nil {
+		return fmt.Errorf("payable handler: %w", err)
+	}
 	if err = builtInFunctions.SetPayableHandler(cont, nd.Pay); err != nil {
 		return fmt.Errorf("payable handler: %w", err)
 	}
@@ -259,6 +263,12 @@ func (nd *Node) Restart() error {
 	nd.Restarts++
 	return nd.build()
 }
+
+// allPayable is a placeholder payability handler (everything is payable).
+type allPayable struct{}
+
+func (allPayable) IsPayable([]byte) (bool, error) { return true, nil }
+func (allPayable) IsInterfaceNil() bool           { return false }
 
 type tamperStub struct{}
 
@@ -299,7 +309,14 @@ func (nd *Node) Rebuild() error {
 
 // ChangeSchedule offers a schedule to the factory; the ghost is updated only if it is valid.
 func (nd *Node) ChangeSchedule(s Schedule) bool {
-	nd.factory.GasScheduleChange(s.ToMap())
+	m := s.ToMap()
+	nd.factory.GasScheduleChange(m)
+	// the map is the host's: it is emptied right after the announcement
+	for _, sub := range m {
+		for k := range sub {
+			delete(sub, k)
+		}
+	}
 	if s.Valid() {
 		nd.Sched = s.Clone()
 		nd.Direct = nil // an accepted schedule reaches every function of the container
